@@ -23,6 +23,8 @@ META = {
             "state belongs to the channel (a channel released after the last unwatch starts again with empty versions). "
             "'Accepted response' = every resource in it decoded and validated. The scripted stream fails Send once the server has "
             "ended the stream (as a gRPC stream does); requests attempted on it are not judged. Only one server is used here. "
+            "Watchers created in a burst (no quiescence after the watch) never withhold onDone, so that a callback recorded by a "
+            "holding watcher after a 'read' line is always caused by that response. "
             "Not a clause of the property but reported as DRIFT D_StreamNotRead: after a response with an unregistered type URL "
             "the real client never calls Recv again (ADS flow control stays pending because onDone is never invoked).",
 }
@@ -68,6 +70,7 @@ def run(ctx):
         g = ctx.dump_graph("ADSMC", ctx.pick("ADSGen.cfg", "ADSGenBig.cfg"))
         behs = X.clean(ctx.edge_cover(g, step_of))
         lim = ctx.pick(1200, 12000)
+        ctx.log("behaviours: %d (limit %d)" % (len(behs), lim))
         if len(behs) > lim:
             ctx.rng.shuffle(behs)
             behs = behs[:lim]
